@@ -63,24 +63,6 @@ Definition bytes_le (a b : bytes) : Prop := cmp_bytes a b <> Gt.
 Definition is_canonical_order (input output : list bytes) : Prop :=
   Permutation input output /\ StronglySorted bytes_le output.
 
-(* reference sort: selection of the minimum (deliberately not the model's insertion sort) *)
-Fixpoint min_bytes (x : bytes) (l : list bytes) : bytes :=
-  match l with
-  | [] => x
-  | y :: r => match cmp_bytes y x with Lt => min_bytes y r | _ => min_bytes x r end
-  end.
-Fixpoint remove_one (x : bytes) (l : list bytes) : list bytes :=
-  match l with
-  | [] => []
-  | y :: r => if zlist_eqb x y then r else y :: remove_one x r
-  end.
-Fixpoint rfc_sort_fuel (fuel : nat) (l : list bytes) : list bytes :=
-  match fuel, l with
-  | S f, x :: r => let m := min_bytes x r in m :: rfc_sort_fuel f (remove_one m l)
-  | _, _ => []
-  end.
-Definition rfc_sort (l : list bytes) : list bytes := rfc_sort_fuel (length l) l.
-
 (* ---------- RFC 4034 3.1.8.1 + RFC 4035 5.3.2: the signed data ---------- *)
 (* RRSIG RDATA minus the signature, signer's name in canonical form *)
 Definition rfc_rrsig_rdata (covered alg labels ottl exp inc tag : Z) (signer : name) : bytes :=
@@ -99,10 +81,12 @@ Definition rfc_wildcard_owner (fqdn : name) (labels : Z) : name :=
 Definition rfc_rr (owner : name) (ty cls ottl : Z) (rdata : bytes) : bytes :=
   rfc_name_wire true owner ++ u16 ty ++ u16 cls ++ u32 ottl ++ u16 (zlen rdata) ++ rdata.
 
+(* signature = sign(RRSIG_RDATA | RR(1) | RR(2)...), the RRs in canonical order
+   (`sorted` is any list with  is_canonical_order canonical_rdatas sorted; it is unique) *)
 Definition rfc_rrsig_input (covered alg labels ottl exp inc tag : Z) (signer owner : name)
-           (cls ty : Z) (canon_rdatas : list bytes) : bytes :=
+           (cls ty : Z) (sorted : list bytes) : bytes :=
   rfc_rrsig_rdata covered alg labels ottl exp inc tag signer
-  ++ flat_map (rfc_rr (rfc_wildcard_owner owner labels) ty cls ottl) (rfc_sort canon_rdatas).
+  ++ flat_map (rfc_rr (rfc_wildcard_owner owner labels) ty cls ottl) sorted.
 
 (* ---------- RFC 4034 5.1.4: DS digest input ---------- *)
 (* digest = digest_algorithm( DNSKEY owner name | DNSKEY RDATA ), owner name in canonical form *)
